@@ -14,7 +14,8 @@ Record NumOps (T : Type) : Type := mkNumOps {
   ncos : T -> T;  nsin : T -> T;  natan2 : T -> T -> T;  npi : T;
   ngamma : T -> T;  nkv : T -> T -> T;
   nround : T -> T;  nfloor : T -> T;  ntoZ : T -> Z;
-  nf32 : T -> T
+  nf32 : T -> T;
+  nbor32 : T -> T -> T     (* numpy.bitwise_or of the binary32 bit patterns (mirror_covariance_matrix) *)
 }.
 Arguments nadd {T} _. Arguments nsub {T} _. Arguments nmul {T} _. Arguments ndiv {T} _.
 Arguments nopp {T} _. Arguments nsqrt {T} _. Arguments nabs {T} _. Arguments nofZ {T} _.
@@ -22,7 +23,7 @@ Arguments nleb {T} _. Arguments nltb {T} _. Arguments neqb {T} _. Arguments npow
 Arguments nexp {T} _. Arguments nln {T} _. Arguments nlog10 {T} _. Arguments ncos {T} _.
 Arguments nsin {T} _. Arguments natan2 {T} _. Arguments npi {T} _. Arguments ngamma {T} _.
 Arguments nkv {T} _. Arguments nround {T} _. Arguments nfloor {T} _. Arguments ntoZ {T} _.
-Arguments nf32 {T} _.
+Arguments nf32 {T} _. Arguments nbor32 {T} _.
 
 Section Derived.
   Context {T : Type} (O : NumOps T).
